@@ -300,6 +300,52 @@ fn runs(ch: &mut Choices, case: &mut Case) -> Result<(), String> {
     large_check(&a, &b, la, lb, next + 1, 9, ch, case)
 }
 
+/// Deeply interleaved operands of 4 000 to 70 000 elements, united on a thread with a 1 GiB stack (the library's union
+/// recurses once per element; on a default stack that depth is not reachable, which is why it is walked here): whatever
+/// a union does beyond some depth or size must still be the set union (S-C20-f falls back to append/dedup/sort at
+/// depth 10 000, in the wrong order).
+fn deep(ch: &mut Choices, case: &mut Case) -> Result<(), String> {
+    let n = [4_000u32, 8_191, 8_192, 9_999, 10_000, 10_001, 16_384, 20_000, 32_768, 65_536, 70_000][ch.draw(11) as usize];
+    let (ka, kb) = [(2u32, 3u32), (2, 2), (3, 5), (1, 2), (2, 1), (7, 2)][ch.draw(6) as usize];
+    let shift = ch.draw(2);
+    let shared_low = ch.chance(50);
+    let a: Vec<u32> = (0..n).map(|i| i * ka).collect();
+    let mut b: Vec<u32> = (0..n).map(|i| i * kb + shift).collect();
+    if shared_low && !b.contains(&0) {
+        b.push(0);
+    }
+    case.key = format!("multiples of {ka} and of {kb} (+{shift}), {n} each{}", if shared_low { ", sharing 0" } else { "" });
+    case.label("more_than_4000_interleaved_elements");
+    case.nontrivial = true;
+    case.units += 1;
+    let handle = std::thread::Builder::new()
+        .stack_size(1 << 30)
+        .spawn(move || {
+            let exp: Vec<u32> = a.iter().chain(b.iter()).copied().collect::<BTreeSet<u32>>().into_iter().collect();
+            let ua: UniqueSortedVec<u32> = a.into();
+            let ub: UniqueSortedVec<u32> = b.into();
+            for (desc, got) in [("a.union(b)", ua.clone().union(ub.clone())), ("b.union(a)", ub.union(ua))] {
+                if got.as_slice() != exp.as_slice() {
+                    return Err(format!("{desc}: {}", first_diff(got.as_slice(), &exp)));
+                }
+            }
+            Ok(())
+        })
+;
+    let handle = match handle {
+        Ok(h) => h,
+        Err(_) => {
+            // no alarm for a machine that cannot reserve the stack
+            case.exclude("no-large-stack-thread-available");
+            return Ok(());
+        }
+    };
+    match handle.join() {
+        Ok(r) => r,
+        Err(_) => Err("union panicked".into()),
+    }
+}
+
 fn random_large(ch: &mut Choices, case: &mut Case) -> Result<(), String> {
     let la = gen_len(ch);
     let lb = gen_len(ch);
@@ -433,6 +479,15 @@ pub fn property() -> Property {
                 cases_quick: 20_000,
                 cases_thorough: 400_000,
                 max_choices: 110,
+            },
+            SubCheck {
+                name: "deep",
+                rule: "interleaved operands (multiples of k and of k' with an optional shift, optionally sharing their least value) of 4 000 to 70 000 elements each (bracketing 8 192, 10 000, 16 384, 32 768, 65 536), united both ways on a thread with a 1 GiB stack vs BTreeSet; every case is non-trivial",
+                f: deep,
+                text_f: None,
+                cases_quick: 128,
+                cases_thorough: 1_024,
+                max_choices: 8,
             },
             SubCheck {
                 name: "random_u8",
